@@ -1282,6 +1282,59 @@ def run_s3(ctx, use_lean=True):
     rng = ctx.rng
     big = ctx.tier == "thorough"
     reqs, meta = [], []
+    # ---- renaming the own input of a (strided) Slice, then using it as an advanced index / chained: exhaustive box
+    NR = 10 if big else 8
+    for dtype in range(1, NR + 1):
+        xs = Tensor(np.arange(dtype, dtype=np.float64) * 1.5 + 1.0, OrderedDict(i=Bint[dtype]))
+        for start in range(0, dtype + 1):
+            for stop in range(start, dtype + 1):
+                for step in (1, 2, 3):
+                    want = list(range(start, stop, step))
+                    if not want:
+                        continue
+                    wit = {"stream": "S3.slice-rename", "slice": [start, stop, step, dtype]}
+                    py = (PY_HEADER + f"s = Slice('k', {start}, {stop}, {step}, {dtype})\nr = s(k='j')\nprint(r, r.inputs)\n"
+                          f"x = Tensor(np.arange({dtype}, dtype=np.float64) * 1.5 + 1.0, OrderedDict(i=Bint[{dtype}]))\n"
+                          f"y = x(i=s)(k='j')\nprint(y)\n"
+                          f"FAILS = r.inputs['j'].size != {len(want)} or list(np.asarray(y.data)) != list(np.asarray(x.data)[{start}:{stop}:{step}])\n")
+                    try:
+                        s_ = Slice("k", start, stop, step, dtype)
+                        results = {"rename": s_(k="j"), "rename-same": s_(k="k"), "rename-via-Variable": s_(k=Variable("m", Bint[len(want)]))}
+                        idx1 = xs(i=s_(k="j"))                      # renamed slice used as an advanced index
+                        idx2 = xs(i=s_)(k="j")                      # chained
+                        with lazy:
+                            lz = Slice("k", start, stop, step, dtype)(k="j")
+                        idx3 = xs(i=lz)
+                    except DECLINE as ex:
+                        ctx.fail("input", "C04.S3.slice-rename.declined", witness=wit, expected="a renamed slice",
+                                 got=f"{type(ex).__name__}: {ex}", python=py)
+                        continue
+                    bad = None
+                    for label, (r_, nm) in {"rename": (results["rename"], "j"), "rename-same": (results["rename-same"], "k"),
+                                            "rename-via-Variable": (results["rename-via-Variable"], "m")}.items():
+                        if list(r_.inputs) != [nm] or r_.inputs[nm].size != len(want) or int(r_.output.size) != dtype:
+                            bad = (label, {k: str(v) for k, v in r_.inputs.items()})
+                            break
+                        vals = [int(np.asarray(r_(**{nm: jj}).data)) for jj in range(len(want))]
+                        if vals != want:
+                            bad = (label, vals)
+                            break
+                    if bad is None:
+                        exp_data = list(np.asarray(xs.data)[start:stop:step])
+                        for label, t_ in (("index", idx1), ("chained", idx2), ("lazy-built", idx3)):
+                            if not isinstance(t_, Tensor) or list(t_.inputs) != ["j"] or list(np.asarray(t_.data)) != exp_data:
+                                bad = (label, {"inputs": {k: str(v) for k, v in t_.inputs.items()},
+                                               "data": np.asarray(getattr(t_, "data", [])).tolist()})
+                                break
+                    if bad is not None:
+                        ctx.fail("input", "C04.S3.slice-rename", witness=dict(wit, route=bad[0]),
+                                 expected={"size": len(want), "values": want}, got=bad[1], python=py)
+                        continue
+                    ctx.count("S3:slice-rename:ok" + (":strided-with-remainder" if step > 1 and (stop - start) % step else ""))
+                    ctx.case(nontrivial_key=("slice-rename", start, stop, step, dtype))
+                    r_ = results["rename"]
+                    reqs.append(f"C04 slicerename ({start} {stop} {step} {dtype})")
+                    meta.append(("slicerename", wit, (r_.slice.start, r_.slice.stop, r_.slice.step, int(r_.output.size), r_.inputs["j"].size), None))
     # ---- Slice into Slice: exhaustive box
     N = 9 if big else 7
     n_ss = 0
@@ -1452,7 +1505,13 @@ def run_s3(ctx, use_lean=True):
             ctx.infra_errors.append(f"driver: {ans[:200]} for {wit}")
             continue
         t = parse_sx("(" + ans[3:] + ")")
-        if kind == "slice2":
+        if kind == "slicerename":
+            head = tuple(int(x) for x in t[0])
+            if head != a:
+                ctx.fail("correspondence", "C04.S3.slice-rename.model", witness=wit, expected=str(head), got=str(a))
+            else:
+                ctx.count("S3:slice-rename:model-identical")
+        elif kind == "slice2":
             head = tuple(int(x) for x in t[0])
             impl = a
             # model (start, stop, step, dtype, size) vs implementation
